@@ -364,3 +364,77 @@ func goEncoderKeys(msg *VStruct, u *Unit) (map[string]bool, []string) {
 	}
 	return keys, notes
 }
+
+// emptyBehaviorPairing: for messages whose empty_behavior fields carry different
+// settings, every key for which the emitted MarshalJSON writes the literal null
+// must be mapped back by an emitted UnmarshalJSON of the same message (protojson
+// rejects or mis-reads null for a message field otherwise). Decided on concrete
+// descriptor scenarios in both Go plugins; nothing is executed.
+func emptyBehaviorPairing(c *Ctx, rid string) {
+	r := c.R
+	c.W.Concrete, c.W.ExternStructs = true, true
+	defer func() { c.W.Concrete, c.W.ExternStructs = false, false }()
+	beh := map[string]Val{
+		"PRESERVE": VInt{N: 1, Label: "EmptyBehavior_EMPTY_BEHAVIOR_PRESERVE"},
+		"NULL":     VInt{N: 2, Label: "EmptyBehavior_EMPTY_BEHAVIOR_NULL"},
+		"OMIT":     VInt{N: 3, Label: "EmptyBehavior_EMPTY_BEHAVIOR_OMIT"},
+	}
+	scen := [][]string{{"NULL"}, {"NULL", "PRESERVE"}, {"PRESERVE", "NULL"}, {"NULL", "OMIT"}, {"OMIT", "NULL", "OMIT"}, {"NULL", "NULL"}, {"OMIT"}}
+	reNullW := regexp.MustCompile(`raw\["([^"]+)"\] = \[\]byte\("null"\)`)
+	reNullR := regexp.MustCompile(`raw\["([^"]+)"\]; ok && string\(\w+\) == "null"`)
+	for _, pkg := range []string{pkgHTTP, pkgClient} {
+		ri := c.Root(pkg, "_empty_behavior.pb.go")
+		if ri == nil {
+			r.Unres(rid, pkgShort(pkg)+" *_empty_behavior.pb.go", "", "unit root not found")
+			continue
+		}
+		pos := c.P.Pos(c.P.Decls[ri.Fn].Pos())
+		for _, sc := range scen {
+			var fs []*cField
+			for i, b := range sc {
+				fs = append(fs, fld(fmt.Sprintf("part_%c", 'a'+i), "message").msg(cMessage("Part", fld("v", "string"))).ann("GetEmptyBehavior", beh[b]))
+			}
+			msg := cMessage("Holder", fs...)
+			file := cstruct("File", map[string]Val{"Messages": VList{Key: "m", Elems: []Val{msg}}, "Services": VList{Key: "s", Elems: []Val{}}, "Enums": VList{Key: "e", Elems: []Val{}},
+				"GoPackageName": constStr("pkg"), "GeneratedFilenamePrefix": constStr("x"), "GoImportPath": constStr("x/pkg"), "Desc": cstruct("FileDesc", map[string]Val{"Path()": constStr("x.proto")})})
+			run := c.W.NewRun(map[string]int{}, false)
+			run.InlineAll, run.FollowSlices = true, true
+			run.CallHook = c.xHookT
+			run.StartArgs(ri.Fn, map[string]Val{"file": file})
+			name := fmt.Sprintf("%s: empty_behavior fields %v", pkgShort(pkg), sc)
+			if len(run.Used) > 0 || run.Aborted != "" || len(run.Units) == 0 {
+				r.Undec(rid, name, pos, fmt.Sprintf("reconstruction of *_empty_behavior.pb.go on the scenario message: open decisions %v, aborted %q, units %d", usedKeys(run), run.Aborted, len(run.Units)))
+				continue
+			}
+			written, read := map[string]bool{}, map[string]bool{}
+			dir := ""
+			for _, l := range run.Units[0].Lines {
+				t := lineText(l.Segs)
+				if strings.HasPrefix(t, "func (x ") {
+					dir = ""
+					if strings.Contains(t, "MarshalJSON()") {
+						dir = "enc"
+					} else if strings.Contains(t, "UnmarshalJSON(") {
+						dir = "dec"
+					}
+				}
+				if m := reNullW.FindStringSubmatch(t); m != nil && dir == "enc" {
+					written[m[1]] = true
+				}
+				if m := reNullR.FindStringSubmatch(t); m != nil && dir == "dec" {
+					read[m[1]] = true
+				}
+			}
+			wantNull := map[string]bool{}
+			for i, b := range sc {
+				if b == "NULL" {
+					wantNull[fmt.Sprintf("part%c", 'A'+i)] = true
+				}
+			}
+			missW, extraW := setDiff(wantNull, written)
+			missR, _ := setDiff(written, read)
+			r.Check(len(missW) == 0 && len(extraW) == 0 && len(missR) == 0, rid, name, pos,
+				fmt.Sprintf("message with empty_behavior fields %v: MarshalJSON writes null for %v (declared NULL: %v); UnmarshalJSON maps null back for %v — not decoded: %v. The peer's own encoder output is then rejected or mis-read by the decoder of the same message", sc, sortedKeys(written), sortedKeys(wantNull), sortedKeys(read), missR))
+		}
+	}
+}
